@@ -89,7 +89,7 @@ def wiring(chk):
         return [SObj(UNIT, {"name": f"{n}[{i}]", "reg_name": n, "index": [i]}) for n, sz in zip(names, sizes) for i in range(sz)]
     shapes = []
     for qregs in ([1], [2], [1, 2], [2, 1], [11]):
-        for cregs in ([], [1], [2, 1]):
+        for cregs in ([], [1], [2, 1], [1, 2, 1]):
             shapes.append((qregs, cregs))
     names_pool = ["a", "b", "c", "d"]
     perms = [()] + [p for n in range(1, 5) for p in itertools.permutations(names_pool[:n])]
@@ -229,7 +229,7 @@ def signature(chk):
     e.global_presets = {(PM, "TypeDef"): TD, ("guppylang.defs", "GuppyDefinition"): GD,
                         ("guppylang.std.quantum", "qubit"): SObj(GD, {"wrapped": qdef}), ("guppylang.std.angles", "angle"): SObj(GD, {"id": "ANGLE_ID"})}
     cnt = 0
-    for qregs, cregs, nparams, use_arrays in itertools.product(([1], [2, 1], [1, 1, 2]), ([], [1], [2, 1]), (0, 1, 3), (False, True)):
+    for qregs, cregs, nparams, use_arrays in itertools.product(([1], [2, 1], [1, 1, 2]), ([], [1], [2, 1], [1, 2, 1]), (0, 1, 3), (False, True)):
         def t(it, qregs=qregs, cregs=cregs, nparams=nparams, use_arrays=use_arrays):
             f = it.lookup_global(m, "_signature_from_circuit")
             circ = SObj(PC, {"q_registers": [SObj(ClassVal("Reg", builtin=True), {"size": s}) for s in qregs],
